@@ -175,6 +175,22 @@ where R: yui::Ring, for<'x> &'x R: yui::RingOps<R> {
     Run { pivs, retries: ctl.retries.load(Ordering::SeqCst), par_commits: ctl.par_commits.load(Ordering::SeqCst) }
 }
 
+/// run `f` on a pool with `threads` workers under the schedule strategy `sched` (hooks installed for the duration);
+/// returns (result, retries, parallel commits).  Calls are serialised process-wide.
+pub fn with_schedule<T: Send>(threads: usize, sched: Sched, f: impl FnOnce() -> T + Send) -> (T, usize, usize) {
+    let _g = HOOK_LOCK.lock().unwrap_or_else(|e| e.into_inner());
+    let ctl = Arc::new(Ctl { sched, waiting: Mutex::new((0, 0)), cv: Condvar::new(), commits: AtomicU64::new(0), retries: AtomicUsize::new(0), par_commits: AtomicUsize::new(0), starts: Mutex::new(Default::default()) });
+    let c2 = ctl.clone();
+    verif_hooks::set(Arc::new(move |p, x, y| c2.on(p, x, y)));
+    let r = with_threads(threads, f);
+    verif_hooks::clear();
+    (r, ctl.retries.load(Ordering::SeqCst), ctl.par_commits.load(Ordering::SeqCst))
+}
+
+pub fn sched_strategy() -> BoxedStrategy<Sched> {
+    prop_oneof![2 => Just(Sched::Free), 4 => (2u8..=16).prop_map(Sched::Barrier), 2 => (any::<u32>(), 1u16..300).prop_map(|(s, m)| Sched::Delay(s, m)), 2 => Just(Sched::Stagger)].boxed()
+}
+
 fn to_sp<R>(m: usize, n: usize, e: &Entries, conv: impl Fn(&V) -> R) -> SpMat<R> where R: yui::Ring, for<'x> &'x R: yui::RingOps<R> {
     SpMat::from_entries((m, n), e.iter().map(|((i, j), v)| (*i, *j, conv(v))))
 }
